@@ -7,7 +7,9 @@ SPEC = {
                  'C12_write_allowed_implies_spec_partial', 'C12_key_executor_unique',
                  'C12_own_namespace_always_allowed', 'C12_success_implies_all_keys_allowed',
                  'C12_failure_discards_writes', 'C12_refused_tx_state',
-                 'C12_local_key_shape', 'C12_exec_local_keys_shape'],
+                 'C12_local_key_shape', 'C12_exec_local_keys_shape',
+                 'C12_group_unreported_write_refused', 'C12_group_failure_keeps_fee_only',
+                 'C12_group_success_reported_allowed_state', 'C12_sdb_tx_unreported_write_refused'],
     'allowed_axioms': [],
     'shard': 600,
     'rule': 'direct calls: (chain title incl. parachain and malformed titles, executor name, key, ForkExecKey flag, friend table) '
@@ -19,8 +21,15 @@ SPEC = {
             'failure is a violation) and unrestricted *-prefork/*-fixed (may hit the legacy exceptions = known finding code 1). '
             'end to end: lists of 2-6 synthetic-driver transactions + a probe transaction through EventExecTxList on a test node '
             '(receipt type, surviving KV, state values seen by the probe), and EventAddBlock with generated local keys. '
+            'groups (postfork, guarded): blocks of single transactions and transaction groups of 2-4 synthetic-driver members + a probe '
+            'transaction through EventExecTxList; streams group-sly (a later member Sets, unreported, a key that an earlier member of the '
+            'group or an earlier single transaction reported - same or another executor), group-loud (it reports the key too: decided by '
+            'the write rule / friend table), group-honest, group-random (own, foreign and malformed keys, hidden writes, errors, small key '
+            'alphabet); observables: receipt type and KV of every member, whether its Exec ran, the values the probe reads; the spec '
+            'oracle flags an ExecOk receipt that does not report a key the driver Set (unreported write accepted), a non-ExecOk receipt '
+            'with more than the fee KV, and probe values that differ from the reported KVs; byte strings of a group case are interned in a per-case table. '
             'non-trivial = key accepted / name accepted or rewritten / FindExecer succeeded / a transaction with keys got ExecOk / '
-            'local keys returned; distinct = distinct Gallina case terms',
+            'a synthetic driver that Set state keys directly ran (group streams) / local keys returned; distinct = distinct Gallina case terms',
     'trusted_base': ['drivers.ExecAddress (hash of the executor name) is an uninterpreted function exec_addr; the check feeds the '
                      'model the addresses the Go code computed',
                      'IsFriend of each driver is an uninterpreted function friend(driver, self, key, tx executor); the synthetic '
@@ -30,8 +39,13 @@ SPEC = {
                      'drivers overriding Allow are outside the model',
                      'the Gallina model coq/theories/C12/Model.v is tied to allow.go / execenv.go / types name helpers by the '
                      'differential check only; unexported predicates are reached through /repo/executor/access_verif.go',
+                     'the store below the block cache is modelled as the oldest part of the cache list (empty for the generated keys); '
+                     'state values are never nil (no deletes through the state db)',
                      'Coq kernel + vm_compute (refutation witness, Examples, case evaluation)'],
-    'assumptions': ['single (non-group) transactions after genesis; heights after ForkExecRollback, ForkStateDBSet and ForkCacheDriver; '
+    'assumptions': ['single transactions after genesis and transaction groups (ModelGroup.v: StateDB cache / txcache / key list with their '
+                    'lifetimes, execTxOne on it, execTxGroup; checkTxGroup - expiry, fee, header/next hashes, blocked accounts - is taken as '
+                    'passed, heights after ForkTxGroup and ForkResetTx0; API-environment errors are not modelled); '
+                    'heights after ForkExecRollback, ForkStateDBSet and ForkCacheDriver; '
                     'drivers that do not run ExecLocal at the same time (ExecutorOrder = 0); fee handling is not modelled: the fee KV '
                     'of a receipt is an input',
                     'before ForkExecKey the three-clause statement is false (C12_write_allowed_full_refuted: manage -> mavl-config-*, '
